@@ -77,6 +77,11 @@ func observed(l []*hx.N, ignore map[string]bool) []Out {
 		if n.Tag == "" {
 			continue
 		}
+		if n.Tag == "template" {
+			// a <template> element left in the output is inert in a browser: its content is not
+			// rendered (and docs/components.md says the tag is omitted from the output)
+			continue
+		}
 		id, marked := n.Attrs["data-m"]
 		if !marked {
 			out = append(out, observed(n.Kids, ignore)...)
